@@ -151,9 +151,9 @@ TupVar ==
        \cup {FunDef("f", TSig(T, sp), <<Assign("u", e0), If(Cc, <<Assign("u", T0)>>, <<>>), Ret(Sub(U, CI(k - 1)))>>, T.elts[k]) : k \in 1..Len(T.elts)}
      : e0 \in TupInit(T)} : T \in TupTypes} : sp \in BOOLEAN}
 
-\* names that collide with the synthesiser's own naming schemes (ancillas anc_<n>, the shared constant qubits TRUE / FALSE):
+\* names that collide with the synthesiser's own naming schemes (ancillas anc_<n>, the shared constant qubits TRUE / FALSE, return bits _ret...):
 \* arguments and locals so called, in expressions that need ancillas and constants
-NmS == {"anc_0", "anc_1", "TRUE", "FALSE"}
+NmS == {"anc_0", "anc_1", "TRUE", "FALSE", "_retv"}
 NmForms(x, y, z) == {Cmp("NotEq", BoolOpN("And", <<x, y>>), y), BoolOpN("Or", <<BoolOpN("And", <<x, y>>), BoolOpN("And", <<Un("Not", x), z>>)>>),
                      Bin("BitXor", BoolOpN("And", <<x, y>>), BoolOpN("And", <<y, z>>)), IfE(x, y, Un("Not", z)),
                      BoolOpN("And", <<BoolOpN("Or", <<x, y>>), BoolOpN("Or", <<y, z>>), Un("Not", BoolOpN("And", <<x, z>>))>>)}
